@@ -134,7 +134,7 @@ PROPS = {
     "C04": {
         "pf": True,
         "n": {"quick": 250, "thorough": 8000},
-        "cone": ["Bytes", "BytesLemmas", "Regex", "Generated", "Channel", "Network", "NetworkAbs", "NetworkLemmas", "NetworkTwins", "NetworkHistory", "NetworkHistoryLemmas", "Replay", "DecideLang", "GeneratedSkel", "DecideLemmas", "DecidePA", "DecideLemmas", "NetworkSrc", "PlatformTypes", "AcquireSrc", "PrivGraphSrc"],
+        "cone": ["Bytes", "BytesLemmas", "Regex", "Generated", "Channel", "Network", "NetworkAbs", "NetworkLemmas", "NetworkTwins", "NetworkHistory", "NetworkHistoryLemmas", "Replay", "DecideLang", "GeneratedSkel", "DecideLemmas", "DecidePA", "DecideLemmas", "NetworkSrc", "PlatformTypes", "AcquireSrc", "EscalateSrc", "PrivGraphSrc"],
         "rx": True,
         "rule": "network.Driver over the simulated transport against a privilege-tree device: random rooted labelled trees of 1-6 levels (with and "
                 "without authenticated edges, with/without secondary secret), every kind of start mode / default level, histories of 1-6 operations "
@@ -344,7 +344,7 @@ PROPS = {
     "C11": {
         "pf": True,
         "n": {"quick": 240, "thorough": 8000},
-        "cone": ["Bytes", "Regex", "Generated", "Channel", "Network", "ChanTrace", "ChanTraceLemmas", "Replay", "BytesLemmas", "PlatformTypes", "Session", "SessionLemmas", "DecideLang", "GeneratedSkel", "WriteSrc"],
+        "cone": ["Bytes", "Regex", "Generated", "Channel", "Network", "ChanTrace", "ChanTraceLemmas", "Replay", "BytesLemmas", "PlatformTypes", "Session", "SessionLemmas", "DecideLang", "GeneratedSkel", "WriteSrc", "EscalateSrc"],
         "rx": True,
         "rule": "the login dialogues of C10 and privilege escalations (device asks / grants without asking / refuses) run with a logger at "
                 "debug/info/critical and a channel log attached; secrets include format verbs, regex metacharacters, non-ASCII and the literal "
